@@ -766,6 +766,8 @@ class RotationImplemented(BaseAlignmentModel):
                 np.array(self._template.shape[-3:]) / 2 - 0.5, rotators
             )
             cval = float(np.percentile(self._template, 1))
+            # NOTE: boolean masks cannot be interpolated.
+            _mask_f32 = self._mask.astype(np.float32, copy=False)
             if self._n_templates > 1:
                 inputs_templates = [
                     xp.spline_filter(
@@ -790,7 +792,7 @@ class RotationImplemented(BaseAlignmentModel):
                             backend=xp,
                         )
                     pool_mask.add_tasks(
-                        ntmp, self._mask, mat, order=3, mode="nearest", prefilter=False
+                        ntmp, _mask_f32, mat, order=3, mode="nearest", prefilter=False
                     )
             else:
                 template_masked = xp.spline_filter(
@@ -811,7 +813,7 @@ class RotationImplemented(BaseAlignmentModel):
                         backend=xp,
                     )
                     pool_mask.add_task(
-                        self._mask, mat, order=3, mode="nearest", prefilter=False
+                        _mask_f32, mat, order=3, mode="nearest", prefilter=False
                     )
 
             _templates, _masks = compute(
